@@ -123,7 +123,7 @@ structure World where
   cycle : Nat := 0
   crashed : Bool := false
   thrown : Bool := false              -- an uncaught LPC error is unwinding to `setjmp (econ.context)` in backend()
-  overflow : Bool := false            -- get_user_data has discarded a full text buffer (sticky; C13-typeahead-discard)
+  overflow : Bool := false            -- get_user_data met a text buffer short of room (read held back / line discarded); sticky
 
 def World.maxUsers (w : World) : Nat := w.slots.length
 /-- the user object exists (created when the connection was accepted) and was not destructed -/
@@ -195,32 +195,56 @@ def rawLen (d : List Char) : Nat := d.length + d.count '~'
     recv() for - so one read always takes everything (harness discipline, enforced by harness and model alike) -/
 def recvChunk : Nat := NV.Gen.C12.maxText / NV.Gen.C12.compactDiv
 
-/-- what get_user_data does to make room before it reads (PORT_TELNET), as a function of `text_start` and the pending
-    length `text_end - text_start`: `(new text_start, discard?, space asked from recv)` - mirrors the C code -/
-def cSpaceRule (start len : Nat) : Nat × Bool × Nat :=
+/-- what get_user_data decides before it reads -/
+inductive RoomAct where
+  | read      -- recv() is called
+  | discard   -- the pending text is thrown away first, then recv()
+  | hold      -- nothing is read: the data stays in the socket
+  deriving Repr, BEq, DecidableEq
+
+/-- the room rule of get_user_data (PORT_TELNET, readiness model) as a function of `text_start`, the pending length
+    `text_end - text_start` and `cmd_in_buf (ip)`: `(new text_start, action, space asked from recv)` - mirrors the C code -/
+def cSpaceRule (start len : Nat) (cmdInBuf : Bool) : Nat × RoomAct × Nat :=
   let space := (NV.Gen.C12.maxText - (start + len) - 1) / NV.Gen.C12.spaceDiv
   if space < NV.Gen.C12.maxText / NV.Gen.C12.compactDiv then
     let space1 := (NV.Gen.C12.maxText - len - 1) / NV.Gen.C12.spaceDiv
-    if space1 < NV.Gen.C12.maxText / NV.Gen.C12.compactDiv then (0, true, NV.Gen.C12.maxText / NV.Gen.C12.discardSpaceDiv)
-    else (0, false, space1)
-  else (start, false, space)
+    if space1 < NV.Gen.C12.maxText / NV.Gen.C12.compactDiv && cmdInBuf then (start, .hold, 0)
+    else if space1 < NV.Gen.C12.maxText / NV.Gen.C12.compactDiv then
+      (0, .discard, NV.Gen.C12.maxText / NV.Gen.C12.discardSpaceDiv)
+    else (0, .read, space1)
+  else (start, .read, space)
 
-/-- the buffer is discarded exactly when the pending text alone leaves less than `MAX_TEXT / 16` room
-    (`cSpaceRule_discard`, Lemmas.lean: `text_start` does not matter) -/
+/-- the pending text alone leaves less than `MAX_TEXT / 16` room: the read is held back when a complete command is
+    buffered, an unfinished over-long line is discarded otherwise (`cSpaceRule_spec`, Lemmas.lean: `text_start` does not
+    matter) -/
 def roomShort (len : Nat) : Bool :=
   (NV.Gen.C12.maxText - len - 1) / NV.Gen.C12.spaceDiv < NV.Gen.C12.maxText / NV.Gen.C12.compactDiv
 
-/-- get_user_data / EOF handling for one user with a poll event -/
-def userIO (w : World) (u : Nat) : World :=
+/-- get_user_data holds the read back: there is an event for the user (data or EOF), the pending text leaves less than
+    `MAX_TEXT / 16` room and contains a complete command (`cmd_in_buf`) - the new data stays in the socket until some
+    of the commands typed ahead have been executed (CMD_IN_BUF is set: backend() does not wait meanwhile) -/
+def heldBack (w : World) (u : Nat) : Bool :=
+  (!(w.net.get u).rx.isEmpty || (w.net.get u).eof) && roomShort (w.users.get u).buf.length &&
+    hasCmd (w.users.get u).single (w.users.get u).buf
+
+/-- get_user_data / EOF handling for one user with a poll event, when the read is not held back -/
+def userIO0 (w : World) (u : Nat) : World :=
   let nt := w.net.get u
   if !nt.rx.isEmpty then
     let us := w.users.get u
-    -- "almost 2k of data": the pending text - complete commands that wait for their turns included - is thrown away
+    -- "almost 2k of data without a newline": an unfinished over-long line is thrown away
     let b := (if roomShort us.buf.length then [] else us.buf) ++ copyChars us.single nt.rx
     { w with users := upd w.users u { us with buf := b, cmdInBuf := us.cmdInBuf || hasCmd us.single b },
              net := upd w.net u { nt with rx := [] }, overflow := w.overflow || roomShort us.buf.length }
   else if nt.eof then { w with slots := removeUser w.slots u }
   else w
+
+/-- get_user_data / EOF handling for one user with a poll event.  `overflow` (sticky) records that the pending text
+    of some user was short of room at a read: the read was held back, or an unfinished over-long line was discarded -/
+def userIO (w : World) (u : Nat) : World :=
+  if heldBack w u then
+    { w with users := upd w.users u { w.users.get u with cmdInBuf := true }, overflow := true }
+  else userIO0 w u
 
 /-- process_io -/
 def processIO (w : World) : World × List Ev :=
